@@ -891,6 +891,9 @@ func c02ChunkSizeChange(r *RunCtx) error {
 func runC02(r *RunCtx) error {
 	r.Sum.Rule = "function level: SHA3-512 on byte strings around the 72-byte rate; Merkle trees of 1..9 (thorough 1..33) arbitrary leaves built by merkletree.NewUsing, library proofs and 15 kinds of tampered proofs through VerifyProofUsing; files around multiples of the chunk size through utils.BuildTree and UnifiedFile.VerifyProof; the three window predicates for all (start, interval, height, lastProven) < 12 and random values < 2^61; ResetChunkWithProof on a grid and random sizes. History level: PostFile/InitProvider/PostProof/RunRewardBlock on the assembled app for (ProofWindow, CheckWindow, ChunkSize) from a grid, an honest prover with one proof per window (first / last / random / alternating placement) and a lazy prover that skips windows and sends bad proofs; one evaluation = one call or one step; non-trivial = distinct input with a positive window / size (function level) or a reward block that runs / a proof submission (history level)"
 	r.Group("fn", "From JK Require Import Model.Windows Corr.C02.", "c02_case", "c02_ok")
+	if err := c02PersistedTwin(r); err != nil {
+		return err
+	}
 	r.Group("hist", "From JK Require Import Model.Windows Corr.C02.", "c02_case", "c02_ok")
 	c02Hashes(r)
 	if err := c02Trees(r); err != nil {
